@@ -2059,6 +2059,69 @@ def run_bounds(level):
     return n, failures, counters
 
 
+def run_chain_histories(depth):
+    """C13 through the Python front end: every interleaving of decodes (3 call forms) and re-encodes (3 call forms) up to
+    the given depth on a ChainCoder over sealed data; at every node a clone that encodes everything back returns the data"""
+    ms, fams, params = history_models()
+    keys = list(ms)
+    failures = []
+    counters = {"py_chain_history_nodes": 0, "py_chain_history_restored": 0, "py_chain_history_out_of_data": 0}
+    def fail(what, detail):
+        if len([f for f in failures if f["what"] == what]) < 3:
+            failures.append({"what": what, "detail": detail})
+    def restore(c, ref, w, hist):
+        try:
+            for (s_, k) in reversed(ref):
+                c.encode_reverse(int(s_), ms[k][0])
+            d1, d2 = c.get_data(unseal=True)
+            if not np.array_equal(np.concatenate([d1, d2]), w):
+                fail("Python front end | ChainCoder | encoding the decoded symbols back (most recent first) does not restore the data", f"history {hist}")
+            else:
+                counters["py_chain_history_restored"] += 1
+        except BaseException as e:
+            fail("Python front end | ChainCoder | encoding the decoded symbols back raises", f"history {hist}: {type(e).__name__}: {str(e)[:100]}")
+    def rec(c, ref, w, hist, d):
+        counters["py_chain_history_nodes"] += 1
+        restore(c.clone(), ref, w, hist)
+        if d == 0 or len(failures) > 20:
+            return
+        # decode: one symbol with each model; two symbols iid; two symbols with per-symbol parameters of each family
+        steps = [("decode one with " + str(k), lambda c, k=k: [(int(c.decode(ms[k][0])), k)]) for k in keys]
+        steps += [("decode 2 iid with " + str(k), lambda c, k=k: [(int(x), k) for x in c.decode(ms[k][0], 2)]) for k in keys[:2]]
+        steps += [(f"decode 2 with parameters of family {f}", lambda c, f=f: [(int(x), (f, i)) for i, x in enumerate(c.decode(fams[f], *params(f, [(f, 0), (f, 1)])))]) for f in ("g", "c")]
+        for name, step in steps:
+            c2 = c.clone()
+            try:
+                got = step(c2)
+            except AssertionError:
+                counters["py_chain_history_out_of_data"] += 1
+                continue
+            except BaseException as e:
+                fail("Python front end | ChainCoder.decode | undocumented failure", f"history {hist + [name]}: {type(e).__name__}: {str(e)[:100]}")
+                continue
+            rec(c2, ref + got, w, hist + [name], d - 1)
+        # encode back: the most recent symbol alone; the two most recent as an iid array / with parameters when they fit
+        if ref:
+            s_, k = ref[-1]
+            c2 = c.clone(); c2.encode_reverse(int(s_), ms[k][0])
+            rec(c2, ref[:-1], w, hist + ["encode back one"], d - 1)
+        if len(ref) >= 2 and ref[-1][1] == ref[-2][1]:
+            c2 = c.clone(); c2.encode_reverse(np.array([ref[-2][0], ref[-1][0]], dtype=np.int32), ms[ref[-1][1]][0])
+            rec(c2, ref[:-2], w, hist + ["encode back 2 iid"], d - 1)
+        if len(ref) >= 2 and ref[-1][1][0] == ref[-2][1][0]:
+            f = ref[-1][1][0]
+            c2 = c.clone(); c2.encode_reverse(np.array([ref[-2][0], ref[-1][0]], dtype=np.int32), fams[f], *params(f, [ref[-2][1], ref[-1][1]]))
+            rec(c2, ref[:-2], w, hist + ["encode back 2 with parameters"], d - 1)
+    with Quiet():
+        for w in ([0x12345678, 0x9abcdef0, 0x0fedcba9, 0x13579bdf, 0x2468ace0, 0xdeadbeef, 0x00000000, 0xffffffff], [0] * 6, [0xffffffff] * 7, [1, 2, 3]):
+            w = np.array(w, dtype=np.uint32)
+            try:
+                rec(CHAIN(w, False, True), [], w, [f"{len(w)} words"], depth)
+            except BaseException as e:
+                fail("Python front end | ChainCoder | a valid history raises", f"{type(e).__name__}: {str(e)[:160]}")
+    return counters["py_chain_history_nodes"], failures, counters
+
+
 def main():
     cmd = sys.argv[1]
     if cmd == "vectors":
@@ -2094,6 +2157,8 @@ def main():
         n, f, c = run_chain_locality(int(sys.argv[2]))
     elif cmd == "bounds":
         n, f, c = run_bounds(int(sys.argv[2]))
+    elif cmd == "chain_histories":
+        n, f, c = run_chain_histories(int(sys.argv[2]))
     elif cmd == "seek":
         n, f, c = run_seek(int(sys.argv[2]))
     elif cmd == "impossible":
